@@ -452,3 +452,40 @@ fn shim_str_lt(a: &str, b: &str) -> (r: bool)
 fn shim_string_eq_str(a: &String, b: &str) -> (r: bool)
     ensures r == (a@ == b@)
 { a == b }
+
+// ---------------- byte slices ----------------
+/// index of the first occurrence of byte x, or -1
+pub open spec fn first_byte(b: Seq<u8>, x: u8) -> int decreases b.len() {
+    if b.len() == 0 { -1 } else if b[0] == x { 0 } else { let r = first_byte(b.skip(1), x); if r < 0 { -1 } else { r + 1 } }
+}
+pub proof fn lemma_first_byte(b: Seq<u8>, x: u8)
+    ensures -1 <= first_byte(b, x) < b.len(),
+        first_byte(b, x) >= 0 ==> b[first_byte(b, x)] == x,
+        forall|i: int| 0 <= i < b.len() && (first_byte(b, x) < 0 || i < first_byte(b, x)) ==> b[i] != x,
+    decreases b.len()
+{
+    if b.len() > 0 && b[0] != x {
+        lemma_first_byte(b.skip(1), x);
+        let t = b.skip(1);
+        assert forall|i: int| 0 <= i < b.len() && (first_byte(b, x) < 0 || i < first_byte(b, x)) implies b[i] != x by {
+            if i > 0 { assert(b[i] == t[i - 1]); }
+        }
+    }
+}
+// shim D6.position_byte: S.iter().position(|&c| c == BYTE)
+#[verifier::external_body]
+fn shim_position_byte(s: &[u8], x: u8) -> (r: Option<usize>)
+    ensures (match r { Some(i) => first_byte(s@, x) == i, None => first_byte(s@, x) < 0 })
+{ s.iter().position(|&c| c == x) }
+// shim D6.lossy_owned: String::from_utf8_lossy(bytes).into_owned().  Assumed: ASCII text decodes to itself and
+// only to itself (invalid sequences become U+FFFD), and the first char is '@' exactly when the first byte is 0x40.
+#[verifier::external_body]
+fn shim_lossy_owned(b: &[u8]) -> (r: String)
+    ensures (r@.len() > 0 && r@[0] == '@') == (b@.len() > 0 && b@[0] == 0x40u8),
+        forall|l: Seq<char>| is_ascii_chars(l) ==> ((r@ == l) == (b@ == #[trigger] encode_utf8(l))),
+{ String::from_utf8_lossy(b).into_owned() }
+// shim D6.string_starts_with_char
+#[verifier::external_body]
+fn shim_string_starts_with_char(s: &String, c: char) -> (r: bool)
+    ensures r == (s@.len() > 0 && s@[0] == c)
+{ s.starts_with(c) }
